@@ -111,6 +111,7 @@ def add_part(part):
 
 SPEC = {
     "C20": {
+        "extra_props": ("QueueHist",),
         "parts": [
             {"name": "lifo", "harness": "lifo", "model": "Lifo", "gen": gen_lifo},
             {"name": "distfifo", "harness": "distfifo", "model": "DistFifo", "gen": gen_distfifo},
